@@ -109,6 +109,17 @@ pub fn export_crash(run: &mut Run, thorough: bool) {
     let sizes: Vec<usize> = if thorough { vec![0, 1, 3, 300, 3000, 20_000] } else { vec![0, 1, 3, 300, 3000] };
     let mut crash_points = 0u64;
     let mut histories = 0u64;
+    let mut recoveries = 0u64;
+    // what the next export after a restart must look like (a small swarm: 2 torrents), produced in a clean directory
+    let small_n = 2usize;
+    let small: std::collections::BTreeSet<String> = {
+        let d = tempfile::tempdir().unwrap();
+        let (c, _) = export_child(d.path(), small_n, false, 0);
+        if c != Some(0) {
+            machinery_failure("reference export of the small swarm could not be produced");
+        }
+        parse_export(&std::fs::read(d.path().join("export.txt")).unwrap_or_default()).unwrap_or_else(|e| machinery_failure(&format!("reference export malformed: {}", e)))
+    };
     for n in sizes {
         for prev_n in [None, Some(2usize), Some(500)] {
             histories += 1;
@@ -176,6 +187,32 @@ pub fn export_crash(run: &mut Run, thorough: bool) {
                     },
                 }
             }
+            // ---- after the crash: the tracker is restarted (whatever the killed export left behind stays in the
+            // directory) with a small swarm and exports again; the result must be exactly that swarm's export
+            for k in 1..=steps {
+                let _ = std::fs::remove_file(&path);
+                let _ = std::fs::remove_file(dir.path().join("export.tmp"));
+                if let Some(b) = &prev_bytes {
+                    std::fs::write(&path, b).unwrap();
+                }
+                let (_, out) = export_child(dir.path(), n, false, k);
+                if !out.contains("KILLED-BEFORE") {
+                    machinery_failure(&format!("recovery history: crash point {} of {} not reached", k, steps));
+                }
+                let leftovers: Vec<String> = std::fs::read_dir(dir.path()).map(|rd| rd.flatten().map(|e| format!("{}:{}", e.file_name().to_string_lossy(), e.metadata().map(|m| m.len()).unwrap_or(0))).collect()).unwrap_or_default();
+                let (c, _) = export_child(dir.path(), small_n, false, 0);
+                recoveries += 1;
+                let detail = json!({"engine": "export-crash", "torrents": n, "previous_export_torrents": prev_n, "kill_before_step": k, "steps": steps, "then": "restart with 2 torrents and export", "directory_after_kill": leftovers});
+                if c != Some(0) {
+                    run.violation("udp/export/export-after-crash-fails", format!("after a kill before step {} of {} the next export (2 torrents) fails with code {:?}", k, steps, c), detail);
+                    continue;
+                }
+                match parse_export(&std::fs::read(&path).unwrap_or_default()) {
+                    Ok(set) if set == small => {}
+                    Ok(set) => run.violation("udp/export/export-after-crash-wrong", format!("after a kill before step {} of {} (directory then: {:?}) the next export of 2 torrents lists {} torrents", k, steps, leftovers, set.len()), detail),
+                    Err(e) => run.violation("udp/export/export-after-crash-wrong", format!("after a kill before step {} of {} (directory then: {:?}) the next export of 2 torrents is malformed: {}", k, steps, leftovers, e), detail),
+                }
+            }
             // concurrent reader during uninterrupted exports
             let _ = std::fs::remove_file(&path);
             if let Some(b) = &prev_bytes {
@@ -203,6 +240,7 @@ pub fn export_crash(run: &mut Run, thorough: bool) {
     }
     run.set("export_histories", histories);
     run.set("crash_points", crash_points);
+    run.set("exports_after_a_crash", recoveries);
     run.add("states", crash_points);
     run.add("transitions", crash_points);
     run.add("traces_validated_against_impl", crash_points);
